@@ -18,13 +18,49 @@ pub fn main(_args: &[String]) -> i32 {
     0
 }
 
+/// A dependency (sfio-rustls-config 0.4.0, server.rs:135) prints `client result: ..` to stdout whenever a TLS
+/// server verifies a client certificate. Result lines must be the only thing on stdout, so fd 1 is pointed at
+/// /dev/null for the duration of the run and the returned file (a dup of the real stdout) is used for results.
+pub fn private_stdout() -> std::fs::File {
+    use std::os::unix::io::FromRawFd;
+    unsafe {
+        let saved = libc::dup(1);
+        assert!(saved >= 0, "dup");
+        let path = std::ffi::CString::new("/dev/null").unwrap();
+        let null = libc::open(path.as_ptr(), libc::O_WRONLY);
+        assert!(null >= 0, "open /dev/null");
+        libc::dup2(null, 1);
+        libc::close(null);
+        std::fs::File::from_raw_fd(saved)
+    }
+}
+
 pub fn cstr(s: &str) -> CString {
     CString::new(s).expect("interior NUL")
 }
 
-/// a port that was free a moment ago on `ip` (the rodbus API offers no port 0: the caller retries on bind failure)
+/// a port that was free a moment ago on `ip` (the rodbus API offers no port 0: the caller retries on bind
+/// failure). Ports are drawn from 10000..32000, below the kernel's ephemeral range, so that thousands of
+/// short-lived test connections (TIME_WAIT) cannot exhaust what is handed out here.
 pub fn free_port(ip: &str) -> u16 {
+    use std::sync::atomic::{AtomicU64, Ordering};
+    static STATE: AtomicU64 = AtomicU64::new(0);
     let addr: IpAddr = ip.parse().expect("ip");
+    let seed = std::time::SystemTime::now().duration_since(std::time::UNIX_EPOCH).map(|d| d.as_nanos() as u64).unwrap_or(1)
+        ^ ((std::process::id() as u64) << 32);
+    for _ in 0..200 {
+        let k = STATE.fetch_add(0x9E37_79B9_7F4A_7C15, Ordering::Relaxed).wrapping_add(seed);
+        // splitmix64
+        let mut z = k;
+        z = (z ^ (z >> 30)).wrapping_mul(0xBF58_476D_1CE4_E5B9);
+        z = (z ^ (z >> 27)).wrapping_mul(0x94D0_49BB_1331_11EB);
+        z ^= z >> 31;
+        let port = 10000 + (z % 22000) as u16;
+        if std::net::TcpListener::bind(SocketAddr::new(addr, port)).is_ok() {
+            return port;
+        }
+    }
+    // last resort: let the kernel choose
     let l = std::net::TcpListener::bind(SocketAddr::new(addr, 0)).expect("bind port 0");
     l.local_addr().unwrap().port()
 }
@@ -348,6 +384,7 @@ pub async fn probe(src: IpAddr, dst: SocketAddr, tls: bool, silence: Duration) -
         Ok(s) => s,
         Err(e) => return Probe::ConnectError(format!("socket:{:?}", e.kind())),
     };
+    let _ = sock.set_reuseaddr(true); // many probes from few source addresses: do not wait out TIME_WAIT
     if let Err(e) = sock.bind(SocketAddr::new(src, 0)) {
         return Probe::ConnectError(format!("bind:{:?}", e.kind()));
     }
